@@ -47,7 +47,7 @@ RULE = (
     "1) x2 transcripts; server signature: one flipped bit in every byte (all bits of every byte when the "
     "iteration count <= 64), every proper prefix, extension, zeros, signature for another password, e= error; "
     "impostor guesses (random, zeros, echo of the proof, H(proof), HMAC(proof, auth), unkeyed HMAC, empty, "
-    "signatures for wrong passwords).  All randomness from random.Random(seed, shard).  An exchange is "
+    "signatures for wrong passwords); 1 replay exchange (a peer that replays the two server messages recorded from the honest exchange: the client nonce must be fresh, the login must abort).  All randomness from random.Random(seed, shard).  An exchange is "
     "non-trivial when the client produced its first message and processed a server reply; distinct = sha1 "
     "of (mechanism, username, password, salt, iterations, variant kind) -- the index of the flipped signature "
     "bit / the prefix length is not part of the signature, so distinct_nontrivial undercounts the exchanges."
